@@ -29,6 +29,7 @@ class Radio:
         self.tx_fifo = []   # dicts: kind ("tx"|"ack"), data, pid / pipe, noack
         self.rx_fifo = []   # (pipe, bytes)
         self.rx_discards = []   # (time, n) FLUSH_RX commands that threw away unread payloads
+        self.rx_reconf = []     # (time, what, old, new, active_for_ns, was_enabled) pipe 0 changed while the receiver was active
         self.flags = 0      # RX_DR | TX_DS | MAX_RT
         self.ce = False
         self.pid = 0
@@ -225,6 +226,9 @@ class Radio:
         if reg in self.a:
             if len(data) > 5:
                 self._lint(reg, len(data), "address write longer than 5 bytes")
+            if reg == 0x0A and self.rx_since is not None and self.sim.now >= self.rx_since and bytes(self.a[reg][: len(data[:5])]) != bytes(data[:5]):
+                # diagnosis: pipe 0 re-addressed while the receiver was already active (it listened on the old address until now)
+                self.rx_reconf.append((self.sim.now, "addr", bytes(self.a[reg]), bytes(data[:5]), self.sim.now - self.rx_since, bool(self.r[2] & 1)))
             self.a[reg][: len(data[:5])] = data[:5]
             self.air.addr_changed(self)
             return
@@ -253,6 +257,8 @@ class Radio:
         if reg in (0x1C, 0x1D) and not self.features_active:
             return
         old = self.r.get(reg, 0)
+        if reg == 2 and (old ^ val) & 1 and self.rx_since is not None and self.sim.now >= self.rx_since:
+            self.rx_reconf.append((self.sim.now, "enable", old & 1, val & 1, self.sim.now - self.rx_since, bool(old & 1)))
         self.r[reg] = val & 0xFF
         if reg == 5 and val != old:
             self.plos = 0
